@@ -1,4 +1,4 @@
-(* C11: the only way parse_args can abort is the ambiguous abbreviation "-i". *)
+(* C11: parse_args never aborts; the only ambiguous argument is "-i". *)
 From Coq Require Import Ascii String Bool Arith Lia List.
 From CBI Require Import Lib.Data Lib.C11_types Gen.C11_tables Model.C11 Spec.C11 Spec.C11safe Proofs.C11.
 Import ListNotations.
@@ -90,13 +90,19 @@ Proof.
     + destruct (onargs o); [discriminate|apply (Hc pos)].
 Qed.
 
-Theorem no_abort argv :
-  ~ In "-i" argv -> exists a, parse_args argv = ROk a \/ parse_args argv = RWarned a.
+(* with the three repairs nothing aborts: ambiguity is an ArgumentError, and ArgumentError is caught *)
+Theorem no_abort argv : exists a, parse_args argv = ROk a \/ parse_args argv = RWarned a.
 Proof.
-  intros Hn. unfold parse_args, parse_args_with, parse_known_args. rewrite om_eq, caught_eq.
-  destruct (classify_total argv Hn false) as [toks ->].
-  destruct (run PAvail None toks) as [a|a|] eqn:E.
-  - exists a; now left.
-  - exists a; now right.
-  - exfalso. revert E. apply run_no_exit.
+  unfold parse_args, parse_args_with, parse_known_args. rewrite om_eq, caught_eq, raises_eq.
+  destruct (classify om false argv) as [[]|toks].
+  - exists acc0; now right.
+  - destruct (run PAvail None toks) as [a|a|] eqn:E.
+    + exists a; now left.
+    + exists a; now right.
+    + exfalso. revert E. apply run_no_exit.
 Qed.
+
+(* ... and the warning branch is not entered because of an ambiguity unless the literal "-i" occurs *)
+Theorem ambiguity_only_i argv :
+  ~ In "-i" argv -> exists toks, classify om false argv = inr toks.
+Proof. intros H. now apply classify_total. Qed.
